@@ -335,3 +335,33 @@ def r5(ctx: Ctx) -> None:
                            ("cmp", "seq", *sorted([("a", ("s", ("a", ("self",), "rectangles"), k_num(0)), "location"), trunk], key=skey))]))
     if ch != (want,):
         ctx.report(fh.where, "has-stog " + "; ".join(show(x) for x in ch), "has_stog is not 'num_rectangles > 0 and rectangles[0].location == TRUNK'", lineno=fh.node.lineno)
+
+
+@rule("C06", "R7.pruning-sound", "GUARD",
+      "in the trunk search a candidate is skipped (break / continue) only when a valid trunk has already been found: "
+      "pruning on areas of rectangles that were not valid trunks makes recognition incomplete and order-dependent", floor=1)
+def r7(ctx: Ctx) -> None:
+    fi = ctx.func(GEOM, "create_stog")
+    g = ctx.cfg(fi)
+    # the candidate loop: the for statement whose body contains the all(...) candidate test
+    loops = [n for n in walk_own(fi.node) if isinstance(n, ast.For) and any(isinstance(c, ast.Call) and call_name(c) == "all" for c in ast.walk(n))]
+    ctx.require(len(loops) == 1, "create_stog: candidate loop not found")
+    lp = loops[0]
+    # the variable that records the accepted trunk: assigned under the all(...) test
+    best = None
+    for n in ast.walk(lp):
+        if isinstance(n, ast.If) and any(isinstance(c, ast.Call) and call_name(c) == "all" for c in ast.walk(n.test)):
+            for st in n.body:
+                if isinstance(st, ast.Assign) and isinstance(st.targets[0], ast.Name):
+                    best = st.targets[0].id
+    ctx.require(best is not None, "create_stog: variable recording the accepted trunk not found")
+    cn = g.canon()
+    bvar = cn.expr(ast.Name(id=best, ctx=ast.Load()))
+    jumps = [n for n in g.stmt_nodes() if n.kind == "stmt" and isinstance(n.ast, (ast.Break, ast.Continue)) and any(x is n.ast for x in ast.walk(lp))]
+    ctx.site(fi.where, "every break/continue of the candidate loop is dominated by 'a valid trunk was found'", jumps=len(jumps))
+    for n in jumps:
+        facts = g.facts_at(n.id)
+        ok = mk_not(mk_lt(bvar, k_num(0))) in facts or mk_lt(k_num(-1), bvar) in facts or any(f_[0] == "cmp" and f_[1] == "isnot" and f_[2] == bvar for f_ in facts)
+        if not ok:
+            ctx.report(fi.where, f"unsound-pruning {norm_stmt(n.ast)}", "a trunk candidate can be skipped although no valid trunk has been found yet: an orthogon whose trunk is not the "
+                       "largest rectangle is rejected depending on the order of the list", lineno=n.lineno, facts=sorted(show(x) for x in facts))
